@@ -119,6 +119,10 @@ class Prop:
                          meta=rng.choice([None, None, {"foo": "bar"}, {"str": "s", "t": [1], "kind": {"data_id": 0}}, {"n": 1, "l": [1, "x", None, True], "d": {"a": {}}}]))
                 yield dict(o, kind="save")
                 yield dict(o, kind="load")
+            if ms != "derived" and rng.random() < 0.25:
+                # options outside opts_ok (short names clashing with entry keys, value lists that do not cover):
+                # no oracle, the model must reproduce what the implementation does (errors included)
+                yield dict(td, km=rng.choice(["clash", "true"]), vm=rng.choice(["partial", "false"]), mapper="cb", meta=None, kind="save", outside=True)
 
     def shrink_candidates(self, desc):
         if "nodes" not in desc:
@@ -166,7 +170,7 @@ class Prop:
             got = None
             obs = [[1, S.err_class(e)], []]
         try:
-            exp = self.expected_doc(desc, tree)
+            exp = None if desc.get("outside") else self.expected_doc(desc, tree)
         except Exception as e:  # noqa: BLE001 (value not covered by the value_map ...)
             exp = None
         if exp is not None:
@@ -175,6 +179,8 @@ class Prop:
             elif got != exp:
                 fail = f"writer: document differs from the documented layout: got {json.dumps(got)[:600]} expected {json.dumps(exp)[:600]}"
         coq = f"CSave {S.coq_sopts(desc, tree, U)} {H.coq_forest(tree._root, U)}"
+        if desc.get("outside"):
+            coq, obs = "CSaveRaw" + coq[5:], obs[0]
         nodes = (got or {}).get("nodes", [])
         refs = sum(1 for e in nodes if isinstance(e[1], int))
         return Case(desc=desc, coq_input=coq, impl_obs=obs, oracle_fail=fail,
